@@ -151,6 +151,8 @@ pub enum Family {
     TwoClusters,
     PointMassWideUniform,
     Constant,
+    /// thousands of repeats of a few non-dyadic decimals (prices, rounded latencies)
+    DecimalTies,
 }
 
 pub const SMOOTH: [Family; 7] = [
@@ -162,13 +164,14 @@ pub const SMOOTH: [Family; 7] = [
     Family::ReverseSorted,
     Family::Sawtooth,
 ];
-pub const TIES: [Family; 6] = [
+pub const TIES: [Family; 7] = [
     Family::Discrete10,
     Family::Discrete3,
     Family::PointMassNormal,
     Family::TwoClusters,
     Family::PointMassWideUniform,
     Family::Constant,
+    Family::DecimalTies,
 ];
 
 impl Family {
@@ -190,6 +193,7 @@ impl Family {
             Family::TwoClusters => "two-clusters-gap",
             Family::PointMassWideUniform => "pointmass+wide-uniform",
             Family::Constant => "constant",
+            Family::DecimalTies => "decimal-ties",
         }
     }
     /// the i-th of n values (order matters for the three order families)
@@ -226,6 +230,7 @@ impl Family {
                 }
             }
             Family::Constant => 42.5,
+            Family::DecimalTies => [19.99, 0.1, 0.3, 2.7, 0.8, 1e-3, 123.456][r.below(7) as usize],
         }
     }
 }
